@@ -821,3 +821,106 @@ def r4(ctx):
                   'associative, the ravel dtype becomes wider than the common promoted dtype for '
                   'some leaf orders and unravel rejects vectors of the true dtype' % text,
                   mod.loc(defs[0]))
+
+
+@rule('CL1', floor=15, title='a nested function does not read a loop variable that its enclosing function has finished with')
+def cl1(ctx):
+    """A closure sees the *current* value of an enclosing variable when it is called, not the value
+    at the time it was defined.  A nested function (or lambda) defined outside a `for` loop of its
+    enclosing function that reads the loop's target therefore always works with the last element
+    (`getattr(obj, f.name)` after `for f in fields(cls)`) - never what a per-element computation
+    means.  Closures defined inside the loop body are not judged (they may be called at once)."""
+    pkg = ctx.py()
+    n_closures = 0
+    # a property is judged by the closures of the modules it is anchored in
+    scope = {'C01': ('optree.dataclasses', 'optree.functools', 'optree.registry'),
+             'C19': ('optree.dataclasses', 'optree.functools'),
+             'C12': ('optree.registry',), 'C05': ('optree.ops',), 'C07': ('optree.ops',),
+             'C20': ('optree.integration.numpy', 'optree.integration.jax', 'optree.integration.torch')}.get(ctx.pid)
+    for mname, mod in sorted(pkg.modules.items()):
+        if mname.endswith('(pyi)'):
+            continue
+        in_scope = scope is None or mname in scope
+
+        def inner_defs(node):
+            for ch in ast.iter_child_nodes(node):
+                if isinstance(ch, (ast.FunctionDef, ast.AsyncFunctionDef, ast.Lambda)):
+                    yield ch
+                else:
+                    yield from inner_defs(ch)
+
+        def visit(fn):
+            nonlocal n_closures
+            loops = []
+            for n in ast.walk(fn):
+                if isinstance(n, (ast.For, ast.AsyncFor)):
+                    own = True
+                    # only loops of this function itself, not of nested ones
+                    for g in inner_defs(fn):
+                        if any(x is n for x in ast.walk(g)):
+                            own = False
+                    if own:
+                        loops.append(({x.id for x in ast.walk(n.target) if isinstance(x, ast.Name)}, n))
+            rebound = {}
+            for g in inner_defs(fn):
+                n_closures += 1
+                n_bad_before = sum(1 for o in ctx.obs if o.status == 'violated')
+                bound = set()
+                a = g.args
+                for p_ in a.posonlyargs + a.args + a.kwonlyargs:
+                    bound.add(p_.arg)
+                if a.vararg:
+                    bound.add(a.vararg.arg)
+                if a.kwarg:
+                    bound.add(a.kwarg.arg)
+                body = g.body if isinstance(g.body, list) else [g.body]
+                reads = {}
+                for b in body:
+                    for x in ast.walk(b):
+                        if isinstance(x, ast.Name):
+                            if isinstance(x.ctx, ast.Store):
+                                bound.add(x.id)
+                            else:
+                                reads.setdefault(x.id, x)
+                        elif isinstance(x, ast.comprehension):
+                            for t in ast.walk(x.target):
+                                if isinstance(t, ast.Name):
+                                    bound.add(t.id)
+                        elif isinstance(x, (ast.FunctionDef, ast.AsyncFunctionDef)):
+                            bound.add(x.name)
+                for names, loop in loops:
+                    if any(x is g for x in ast.walk(loop)):
+                        continue
+                    for nm in sorted(set(reads) - bound):
+                        if nm not in names:
+                            continue
+                        # the name is bound again between the loop and the definition: that value is meant
+                        later = [s_ for s_ in ast.walk(fn) if isinstance(s_, ast.Name) and s_.id == nm and
+                                 isinstance(s_.ctx, ast.Store) and s_.lineno > loop.end_lineno and
+                                 s_.lineno < g.lineno and not any(s_ is t for t in ast.walk(loop))]
+                        if later:
+                            continue
+                        if not in_scope:
+                            continue
+                        ctx.bad('%s.%s/%s reads %s' % (mname.split('.')[-1], getattr(fn, 'name', '?'),
+                                                          getattr(g, 'name', 'lambda'), nm),
+                                      '%s.%s: the nested function `%s` reads `%s`, the target of the loop at line %d '
+                                      'of its enclosing function, but is defined outside that loop: whenever it is '
+                                      'called it sees the last element only (or nothing, for an empty sequence)'
+                                      % (mname, getattr(fn, 'name', '?'), getattr(g, 'name', 'lambda'), nm, loop.lineno),
+                                      mod.loc(reads[nm]))
+                if sum(1 for o in ctx.obs if o.status == 'violated') == n_bad_before:
+                    ctx.ok('%s.%s/%s@%d' % (mname.split('.')[-1], getattr(fn, 'name', '?'),
+                                           getattr(g, 'name', 'lambda'), g.lineno - fn.lineno),
+                           '%s.%s: nested `%s` reads no finished loop variable of its enclosing function'
+                           % (mname, getattr(fn, 'name', '?'), getattr(g, 'name', 'lambda')), mod.loc(g))
+                if not isinstance(g, ast.Lambda):
+                    visit(g)
+        for top in mod.tree.body:
+            if isinstance(top, (ast.FunctionDef, ast.AsyncFunctionDef)):
+                visit(top)
+            elif isinstance(top, ast.ClassDef):
+                for m_ in top.body:
+                    if isinstance(m_, (ast.FunctionDef, ast.AsyncFunctionDef)):
+                        visit(m_)
+    ctx.require(n_closures >= 15, 'only %d nested functions found' % n_closures)
